@@ -76,6 +76,12 @@ def plant(t, rng, tg, n):
     gen.strip_ids(t)
 
 
+def _ancestors(n):
+    while n.parent is not None:
+        n = n.parent
+        yield n
+
+
 def oracle(orig_t, root, pruned, strict, store_before):
     """declarative post-conditions on the implementation's result"""
     mappings = rulemod.node_mappings
@@ -214,6 +220,25 @@ def run(ctx):
                     w = f"pruning a second time removed {[(n.name) for n, _ in again]}"
             except Exception as e:
                 w = f"second prune raised {type(e).__name__}"
+        if w is None and rng.random() < 0.5:
+            # the same node objects pruned again after an edit: plant an unknown element somewhere below the (now clean) root;
+            # pruning removes exactly it and gives back the tree as it was before the planting
+            kept_nodes = [n for n in walk(root) if n.name != "metadata" and not any(a.name == "metadata" for a in _ancestors(n))]
+            host = rng.choice(kept_nodes)
+            intruder = Node("zzPlantedLater", content="x"); intruder.add_child(Node("zzBelow"))
+            clean_state = impl.snapshot(root)
+            host.add_child(intruder, rng.randint(0, len(host.children)))
+            try:
+                third = impl.limited(validate.prune, root, strict)
+                names3 = [n.name for n, _ in third]
+                if names3 != ["zzPlantedLater"]:
+                    w = f"an unknown element planted under {host.name} after a first pruning: the next pruning returned {names3}, expected exactly the planted element"
+                elif impl.snapshot(root) != clean_state:
+                    w = "after pruning a later-planted element the tree is not what it was before the planting"
+                elif Node.get_node_instance(intruder.id) is not None:
+                    w = "the later-planted element was pruned but is still registered"
+            except Exception as e:
+                w = f"pruning after a later edit raised {type(e).__name__}: {e}"
         if w:
             fails.append({"case": case, "what": w})
         dist["removed_roots"] += len(lst)
